@@ -1,11 +1,11 @@
 package main
 
 import (
-	"regexp"
 	"encoding/json"
 	"fmt"
 	"os"
 	"path/filepath"
+	"regexp"
 	"sort"
 	"strings"
 	"time"
@@ -30,9 +30,9 @@ type KnownFinding struct {
 	// ConstructRe, when set, identifies the finding by the failing operands rather than by the enclosing
 	// function (which a helper extraction changes): a regular expression over the obligation instance.
 	ConstructRe string `json:"construct_re,omitempty"`
-	What      string `json:"what"`
-	Input     string `json:"input,omitempty"`
-	Commit    string `json:"commit,omitempty"`
+	What        string `json:"what"`
+	Input       string `json:"input,omitempty"`
+	Commit      string `json:"commit,omitempty"`
 }
 
 // Ctx carries the loaded program and collects the obligations of one property run.
@@ -93,13 +93,13 @@ func (c *Ctx) Check(ok bool, rule, instance, where, detail string) bool {
 }
 
 // Min declares the minimum number of non-info instances a rule must have produced (vacuity guard).
-func (c *Ctx) Min(rule string, n int)       { c.mins[rule] = n }
-func (c *Ctx) Explain(s string)             { c.explanation = s }
-func (c *Ctx) NotCovered(s ...string)       { c.notCovered = append(c.notCovered, s...) }
-func (c *Ctx) Assume(s ...string)           { c.assumptions = append(c.assumptions, s...) }
-func (c *Ctx) NoteFunc(name string)         { c.funcs[name] = true }
-func (c *Ctx) NoteCallSites(n int)          { c.callSites += n }
-func (c *Ctx) Extra(k string, v any)        { c.extra[k] = v }
+func (c *Ctx) Min(rule string, n int) { c.mins[rule] = n }
+func (c *Ctx) Explain(s string)       { c.explanation = s }
+func (c *Ctx) NotCovered(s ...string) { c.notCovered = append(c.notCovered, s...) }
+func (c *Ctx) Assume(s ...string)     { c.assumptions = append(c.assumptions, s...) }
+func (c *Ctx) NoteFunc(name string)   { c.funcs[name] = true }
+func (c *Ctx) NoteCallSites(n int)    { c.callSites += n }
+func (c *Ctx) Extra(k string, v any)  { c.extra[k] = v }
 func (c *Ctx) CountRule(rule string) (n int) {
 	for _, o := range c.obs {
 		if o.Rule == rule && o.Status != "info" {
@@ -273,15 +273,15 @@ func (c *Ctx) writeEvidence(total, discharged, distinct, nviol int, knownHit []O
 		expl += " NOT COVERED: " + strings.Join(c.notCovered, "; ") + "."
 	}
 	cov := map[string]any{
-		"explanation":         expl,
-		"obligations":         total,
-		"discharged":          discharged,
-		"evaluations":         total,
-		"distinct_nontrivial": distinct,
-		"rule":                "one evaluation per rule instance decided against a construct of /repo's current source; an instance is non-trivial when it matched a concrete construct (file:line) of /repo or was violated/undecided; distinct by rule|instance key",
-		"samples":             samples,
+		"explanation":          expl,
+		"obligations":          total,
+		"discharged":           discharged,
+		"evaluations":          total,
+		"distinct_nontrivial":  distinct,
+		"rule":                 "one evaluation per rule instance decided against a construct of /repo's current source; an instance is non-trivial when it matched a concrete construct (file:line) of /repo or was violated/undecided; distinct by rule|instance key",
+		"samples":              samples,
 		"rule_instance_counts": ruleCounts,
-		"checker_cmd":         fmt.Sprintf("./bin/sacheck -prop %s -tier %s", c.Prop, c.Tier),
+		"checker_cmd":          fmt.Sprintf("./bin/sacheck -prop %s -tier %s", c.Prop, c.Tier),
 		"trusted_base": []string{"go/types type checker and go/ssa builder (go1.26.8, x/tools v0.50.0)", "VTA call graph over CHA", "the analyser's engines (sa/*.go) and its rule tables written from the property statements",
 			"known_findings.json entries (each a defect confirmed by execution during triage)"},
 		"packages":           pkgs,
